@@ -586,6 +586,11 @@ def check_validate_first(ctx, rule: str) -> None:
                         first_obs.append((n, c))
             if not first_obs:
                 raise AnalysisError(f"{m.qname}: no observable actions recognised")
+            # the call's own rejections (exceptions it constructs itself from its arguments) all happen before
+            # anything observable: none is reachable from dispatcher creation / emission / execution
+            own = [n for n in cfg.nodes if n.kind == "stmt" and isinstance(n.ast, ast.Raise) and isinstance(n.ast.exc, ast.Call)]
+            late = [r_ for r_ in own if any(reaches(o, r_) for o, _ in first_obs)]
+            rep.add(rule, f"{m.qname}:own-rejections-before-observable", not late, f"{m.module.rel}:{late[0].lineno if late else m.lineno}", f"every exception {name}() constructs itself ({len(own)}) is raised before anything observable" if not late else f"'{src(late[0].ast)[:70]}' is raised after the dispatcher exists / run-start was emitted: a call rejected for its arguments delivers RunStart/RunEnd to the processors")
             bad = []
             for n, c in first_obs:
                 if n not in dom:
